@@ -5,6 +5,7 @@ import (
 	"context"
 	"fmt"
 	"io"
+	"strings"
 
 	md "github.com/ddddddO/gtree/markdown"
 )
@@ -22,6 +23,7 @@ func split(ctx context.Context, r io.Reader) (<-chan string, <-chan error) {
 		}()
 
 		block := ""
+		sharpRoot := false // once a "#" root has been seen, items at the left margin are its children, not roots
 		for sc.Scan() {
 			select {
 			case <-ctx.Done():
@@ -29,7 +31,10 @@ func split(ctx context.Context, r io.Reader) (<-chan string, <-chan error) {
 				return
 			default:
 				l := sc.Text()
-				if isRootBlockBeginning(l) {
+				if strings.HasPrefix(l, "#") {
+					sharpRoot = true
+				}
+				if isRootBlockBeginning(l) && (!sharpRoot || strings.HasPrefix(l, "#")) {
 					if len(block) != 0 {
 						verifPoint("split.send.pre", 0, block)
 						select {
